@@ -3,18 +3,29 @@
 
 use crate::runner::{Meta, Session};
 
+pub mod builder;
+pub mod envelope;
 pub mod pure_ordinals;
+pub mod runestone;
+pub mod settings;
+pub mod storage;
 pub mod text;
 
 pub fn dispatch(id: &str) -> Option<fn(&mut Session) -> Meta> {
   Some(match id {
+    "C20" => builder::c20,
+    "C25" => runestone::c25,
     "C26" => pure_ordinals::c26,
+    "C27" => envelope::c27,
+    "C28" => envelope::c28,
     "C29" => pure_ordinals::c29,
     "C30" => pure_ordinals::c30,
     "C32" => pure_ordinals::c32,
     "C31" => text::c31,
     "C33" => pure_ordinals::c33,
     "C34" => text::c34,
+    "C35" => storage::c35,
+    "C36" => settings::c36,
     _ => return None,
   })
 }
